@@ -2,7 +2,7 @@
    Independent of how fasthttp stores or serialises a response: a handler program (the SYNTAX `hop` of
    Model/RespWrite.v) is read as the list of API calls it is, and reduced to the status and body the handler asked
    for; the wire is judged by the independent reader Spec/RespParse.v. *)
-From FH Require Import Model.Base Model.HeaderWrite Model.RespWrite Spec.RespParse.
+From FH Require Import Model.Base Gen.GenC05 Model.HeaderWrite Model.RespWrite Spec.RespParse Spec.HeaderSpec.
 Open Scope Z_scope.
 
 (* ---------- what the handler asked for ---------- *)
@@ -61,6 +61,43 @@ Definition special_names : list string :=
 Definition is_user (k : bytes) : bool := negb (existsb (fun n => name_is n k) special_names).
 Definition user_of (fs : list (bytes * bytes)) : list (bytes * bytes) := filter (fun e => is_user (fst e)) fs.
 
+(* the user header fields a handler program asked for: its header calls read as operations of the reference header map
+   Spec/HeaderSpec.v (ordered multimap: Set replaces the first value or appends, Add appends, Del removes all; names
+   canonicalised unless normalising is off; CR/LF in values become blanks).  f_ok = false: the program uses something
+   this reading does not cover (trailers move fields out of the head; SetCanonical with a non-canonical key) *)
+Record fwant := mkFW { f_m : mm; f_nonorm : bool; f_ok : bool }.
+Definition fwant_step (w : fwant) (o : hop) : fwant :=
+  match o with
+  | HHdr (ROSet k v) =>
+      match cls_of HResp (canon (f_nonorm w) k) with
+      | CTrailer => mkFW (f_m w) (f_nonorm w) false
+      | _ => mkFW (sstep HResp (f_nonorm w) (f_m w) (SSet k v)) (f_nonorm w) (f_ok w)
+      end
+  | HHdr (ROAdd k v) =>
+      match cls_of HResp (canon (f_nonorm w) k) with
+      | CTrailer => mkFW (f_m w) (f_nonorm w) false
+      | _ => mkFW (sstep HResp (f_nonorm w) (f_m w) (SAdd k v)) (f_nonorm w) (f_ok w)
+      end
+  | HHdr (ROSetCanonical k v) =>
+      if beq (canon (f_nonorm w) k) k && match cls_of HResp k with CTrailer => false | _ => true end
+      then mkFW (sstep HResp (f_nonorm w) (f_m w) (SSet k v)) (f_nonorm w) (f_ok w)
+      else mkFW (f_m w) (f_nonorm w) false
+  | HHdr (ROSetTrailer _) | HHdr (ROAddTrailer _) => mkFW (f_m w) (f_nonorm w) false
+  | HHdr RODisableNormalizing => mkFW (f_m w) true (f_ok w)
+  | HHdr ROEnableNormalizing => mkFW (f_m w) false (f_ok w)
+  | HDel k => mkFW (sstep HResp (f_nonorm w) (f_m w) (SDel k)) (f_nonorm w) (f_ok w)
+  | HError _ _ => mkFW [] false (f_ok w)                 (* Response.Reset *)
+  | _ => w
+  end.
+Definition fwant_of (nonorm0 : bool) (prog : list hop) : fwant := fold_left fwant_step prog (mkFW [] nonorm0 true).
+
+Definition field_eqb (a b : bytes * bytes) : bool := beq (fst a) (fst b) && beq (snd a) (snd b).
+(* the reader's user fields are exactly the program's, same order, values up to surrounding blanks *)
+Definition fields_ok (nonorm0 : bool) (prog : list hop) (fs : list field) : bool :=
+  let w := fwant_of nonorm0 prog in
+  if f_ok w then list_eqb field_eqb (user_of fs) (map (fun e => (fst e, trim_ows (snd e))) (user_of (f_m w)))
+  else true.
+
 (* ---------- head only (for the "at most the declared size" clause) ---------- *)
 Definition head_parse (s : bytes) : option (Z * list field * bytes) :=
   match take_line s with
@@ -95,7 +132,7 @@ Definition undeliverable (r : meth * list hop) : bool :=
    reqs: the requests the peer sent (method, handler program), in order;
    wire: everything the peer received; closed: the server closed the connection by itself.
    Every request is answered in order until the connection is closed. *)
-Fixpoint judge_conn (reqs : list (meth * list hop)) (wire : bytes) (closed : bool) : bool :=
+Fixpoint judge_conn (nonorm0 : bool) (reqs : list (meth * list hop)) (wire : bytes) (closed : bool) : bool :=
   match reqs with
   | [] => match wire with [] => true | _ => false end
   | (m, prog) :: rest =>
@@ -107,7 +144,7 @@ Fixpoint judge_conn (reqs : list (meth * list hop)) (wire : bytes) (closed : boo
             match resp_parse m wire with
             | None => closed && existsb undeliverable ((m, prog) :: rest)   (* cut off by a failed Write (this one only if ambiguous, else a later one) *)
             | Some p =>
-                (p_status p =? w_status w) &&
+                (p_status p =? w_status w) && fields_ok nonorm0 prog (p_fields p) &&
                 beq (p_body p) (if bodyless m (w_status w) then [] else body) &&
                 if p_until_close p then closed                   (* delimited by the close: must be closed, nothing follows *)
                 else
@@ -115,7 +152,7 @@ Fixpoint judge_conn (reqs : list (meth * list hop)) (wire : bytes) (closed : boo
                   | [], _ => if closed then true                 (* closed after this response: later requests unanswered *)
                              else match rest with [] => true | _ => false end
                   | _ :: _, [] => false                           (* bytes after the last response *)
-                  | _ :: _, _ :: _ => judge_conn rest (p_rest p) closed
+                  | _ :: _, _ :: _ => judge_conn nonorm0 rest (p_rest p) closed
                   end
             end
         | None =>
@@ -123,11 +160,11 @@ Fixpoint judge_conn (reqs : list (meth * list hop)) (wire : bytes) (closed : boo
               (* no body is sent anyway: one complete response, then whatever the connection does *)
               match resp_parse m wire with
               | None => closed && existsb undeliverable rest
-              | Some p => (p_status p =? w_status w) &&
+              | Some p => (p_status p =? w_status w) && fields_ok nonorm0 prog (p_fields p) &&
                           match p_rest p, rest with
                           | [], _ => closed || match rest with [] => true | _ => false end
                           | _ :: _, [] => false
-                          | _ :: _, _ :: _ => judge_conn rest (p_rest p) closed
+                          | _ :: _, _ :: _ => judge_conn nonorm0 rest (p_rest p) closed
                           end
               end
             else
